@@ -162,6 +162,13 @@ pub fn ladder_items(ctx: &Ctx) -> Vec<(Flavour, usize, usize, usize)> {
     for (w, h) in super::ladder::std_boundary_dims() {
         v.push((Flavour::StdPlus, w, h, 0));
     }
+    // sizes that have a size / format code of their own, signalled through that code
+    for (i, (w, h)) in [(352usize, 288usize), (176, 144), (128, 96), (320, 240), (160, 120)].into_iter().enumerate() {
+        v.push((Flavour::Sor((i % 2) as u8), w, h, 0));
+    }
+    for f in STD_FIXED {
+        v.push((Flavour::StdFixed, f.1, f.2, 0));
+    }
     for (i, n) in super::ladder::PEI_LADDER.iter().enumerate() {
         v.push((if i % 3 == 2 { Flavour::StdFixed } else { Flavour::Sor((i % 2) as u8) }, if i % 3 == 2 { 128 } else { 16 }, if i % 3 == 2 { 96 } else { 16 }, *n));
     }
@@ -172,7 +179,12 @@ pub fn ladder_case(ctx: &Ctx, k: usize, rep: &mut Report) {
     let items = ladder_items(ctx);
     let (flavour, w, h, pei) = items[k];
     let mut rng = Rng::new(ctx.seed ^ 0xC02AD, 1 + k as u64);
-    let cfg = super::ladder::cfg_for(&mut rng, flavour, w, h, pei);
+    let mut cfg = super::ladder::cfg_for(&mut rng, flavour, w, h, pei);
+    if flavour.sorenson() && [(352usize, 288usize), (176, 144), (128, 96), (320, 240), (160, 120)].contains(&(w, h)) {
+        cfg.prefer_fixed_size_code = true;
+        cfg.force16 = false;
+        rep.count("ladder:predefined-size-code");
+    }
     let pic = super::ladder::large_intra(&mut rng, &cfg);
     let before = rep.get("pictures_compared");
     judge(rep, &pic, flavour, &cfg, J::obj().set("property", "C02").set("kind", "ladder").set("tier", ctx.tier_name()).set("seed", ctx.seed).set("stage", ctx.stage.clone()).set("k", k).set("what", format!("{} {}x{} pei={}", flavour.name(), w, h, pei)), k == 0);
